@@ -174,7 +174,7 @@ fn gen_len(rng: &mut Rng, tier: &str, cap: usize) -> usize {
     } else {
         rng.range(140_000, 220_000)
     };
-    let l = if tier == "thorough" && rng.chance(1, 12) { rng.range(500_000, 2_000_000) } else { l };
+    let l = if tier == "thorough" && rng.chance(1, 25) { rng.range(400_000, 1_000_000) } else { l };
     (l as usize).min(cap)
 }
 
